@@ -58,7 +58,7 @@ def loop_progress(prog, res):
     gs = [g for g in guards.guard_sites(d) if {"noForwardProgress_destFull", "noForwardProgress_inputEmpty"} & g.codes]
     inc = [(b, i) for b, i, x in d.events(lambda y: y.get("k") == "un" and y.get("op", "").endswith("++")) if strip_casts(x["e"]).get("f") == "noForwardProgress"]
     rst = [(b, i) for b, i, x in d.events(lambda y: y.get("k") == "asg") if strip_casts(x["lhs"]).get("f") == "noForwardProgress" and const_val(x["rhs"]) == 0]
-    res.check(len(gs) >= 2 and len(inc) == 1 and bool(rst), R, "decompressStream:no-progress-watchdog", d.loc, "repeated calls without progress end in an error, progress resets the counter",
+    res.check(len(gs) >= 2 and len(inc) >= 1 and bool(rst), R, "decompressStream:no-progress-watchdog", d.loc, "repeated calls without progress end in an error, progress resets the counter",
               "no-progress watchdog incomplete")
     res.need(R, 5)
 
